@@ -51,6 +51,7 @@ type Spec struct {
 	MaxRetries  int          `json:"max_retries,omitempty"`
 	Filters     []FilterSpec `json:"filters,omitempty"`
 	Pool        []string     `json:"pool,omitempty"`
+	PoolDelayMs int          `json:"pool_delay_ms,omitempty"` // the first NewStream call takes this long (e.g. a connect attempt)
 	Events      []Event      `json:"events,omitempty"`
 	// time-out sources (ms; 0 = absent): route config, request headers, protocol-supplied variables
 	RouteGlobalMs int `json:"route_global_ms,omitempty"`
